@@ -43,7 +43,15 @@ fi
 # ---- run the checks against it
 if ! git -C $RP diff --quiet; then echo "$RP dirty"; exit 2; fi
 rm -rf build/evidence.keep && cp -r evidence build/evidence.keep
-git -C $RP apply $src/patch.diff
+# (a later fix: commit may have touched neighbouring lines: fall back to a three-way application; a patch that cannot be applied
+# at all is reported and the recorded detection history is left alone)
+if ! git -C $RP apply $src/patch.diff 2>/dev/null; then
+  if ! git -C $RP apply --3way $src/patch.diff 2>/dev/null; then
+    echo "PATCH DOES NOT APPLY to $RP (conflicts with a later commit): $id"; git -C $RP checkout -- . ; git -C $RP reset -q --hard 2>/dev/null
+    rm -rf evidence && cp -r build/evidence.keep evidence; exit 3
+  fi
+  git -C $RP reset -q 2>/dev/null   # (three-way application stages the result: keep it in the working tree only)
+fi
 for p in $prop $others; do
   out=$(VERIF_REPO=$RP ./check $p 2>&1)
   echo "$out" | grep -E "^VIOLATION|^KNOWN|^$p:" | cut -c1-250 > /tmp/confirm/$id.check_$p.txt
